@@ -80,14 +80,19 @@ RETRY:
 			// ErrSegmentReplaced indicates we attempted to read from a log
 			// segment that was replaced due to compaction, so reinitialize the
 			// contextReader and try again to read from the new segment.
+			// Keep the current contextReader if this fails (e.g. the cleaner
+			// has not swapped in the new segments yet): a caller that reads
+			// again retries instead of dereferencing a nil reader.
+			var ctxReader contextReader
 			if r.uncommitted {
-				r.ctxReader, err = r.log.newReaderUncommitted(r.offset)
+				ctxReader, err = r.log.newReaderUncommitted(r.offset)
 			} else {
-				r.ctxReader, err = r.log.newReaderCommitted(r.offset)
+				ctxReader, err = r.log.newReaderCommitted(r.offset)
 			}
 			if err != nil {
 				return nil, 0, 0, 0, pkgErrors.Wrap(err, "failed to reinitialize reader")
 			}
+			r.ctxReader = ctxReader
 			goto RETRY
 		} else {
 			return nil, 0, 0, 0, err
